@@ -296,6 +296,16 @@ def drop_cfg_features(toks, log, features=CFG_DROP):
                     out.append(Tok('ws', '\n' * text(dropped).count('\n'), t.pos, t.line))
                     k = se + 1
                     continue
+                m = re.match(r'#\[cfg\(any\(((?:feature="[a-z_-]+",?)+)\)\)\]$', a)
+                if m and all(f in features for f in re.findall(r'feature="([a-z_-]+)"', m.group(1))):
+                    # `#[cfg(any(feature = "log", feature = "tracing"))] <stmt>`: every alternative is a dropped feature
+                    s = _next_sig(toks, e)
+                    se = stmt_end(toks, s)
+                    dropped = toks[k:se + 1]
+                    log.append(('R1', 'drop cfg(any(%s)) statement' % m.group(1), t.line))
+                    out.append(Tok('ws', '\n' * text(dropped).count('\n'), t.pos, t.line))
+                    k = se + 1
+                    continue
                 m = re.match(r'#\[cfg_attr\(feature="([a-z_-]+)",', a)
                 if m and m.group(1) in features:
                     log.append(('R1', 'drop cfg_attr(feature=%s)' % m.group(1), t.line))
